@@ -12,7 +12,70 @@ def summarize(trace):
     return out
 
 
+BASE_CLASSES = [
+    # (dtype, N, M) of the representative heap; every class gets a tensor, a second tensor of the same shape, a square
+    # operator, a rectangular operator and a TT-SVD output (numpy ints in R)
+    ('f64', [2, 3, 2], [3, 2, 2]),
+    ('f64', [4, 1, 2], [2, 1, 3]),
+    ('c128', [2, 2], [3, 2]),
+    ('f32', [3, 2, 2], [2, 2, 2]),
+    ('f64', [4], [3]),
+    ('f64', [2, 2, 2, 2], [2, 2, 2, 2]),
+]
+
+
+def pair_space():
+    names = [n for n in history.OPS if history.OPS[n].weight > 0 and n != 'create']
+    return [(c, a, b) for c in range(len(BASE_CLASSES)) for a in names for b in names]
+
+
+def run_pair(idx, rng, res, log):
+    """Exhaustive part: every ordered pair of operation kinds on every representative heap class."""
+    c, op1, op2 = pair_space()[idx]
+    dt, N, M = BASE_CLASSES[c]
+    d = len(N)
+    R = [1] + [2] * (d - 1) + [1]
+    M_ = history.Machine(res, log)
+    base = [
+        {'kind': 'cores', 'N': N, 'M': M, 'R': R, 'dt': dt, 'vseed': 11, 'eps': 1e-12},
+        {'kind': 'cores', 'N': N, 'M': M, 'R': R, 'dt': dt, 'vseed': 12, 'eps': 1e-12},
+        {'kind': 'cores_m', 'N': N, 'M': N, 'R': R, 'dt': dt, 'vseed': 13, 'eps': 1e-12},
+        {'kind': 'cores_m', 'N': N, 'M': M, 'R': R, 'dt': dt, 'vseed': 14, 'eps': 1e-12},
+        {'kind': 'svd', 'N': N, 'M': M, 'R': R, 'dt': dt, 'vseed': 15, 'eps': 1e-8},
+    ]
+    sid = 0
+    for p in base:
+        M_.step({'sid': str(sid), 'op': 'create', 'args': [], 'p': p, 'tseed': 1000 + sid})
+        sid += 1
+    done = 0
+    for name in (op1, op2):
+        pk = None
+        for _ in range(20):
+            pk = history.OPS[name].pick(rng, M_.S)
+            if pk is not None:
+                break
+        if pk is None:
+            continue
+        M_.step({'sid': str(sid), 'op': name, 'args': list(pk[0]), 'p': pk[1], 'tseed': rng.getrandbits(31)})
+        sid += 1
+        done += 1
+    core.bump(res['stats'], 'pairs_enumerated')
+    if done == 2:
+        core.bump(res['stats'], 'pairs_both_applicable')
+    res['keys'].append('pair|%d|%s|%s' % (c, op1, op2))
+    return M_
+
+
 def run_one(rng, tier, res, opts):
+    if opts.get('pairs') and res['i'] < len(pair_space()):
+        log = core.EventLog()
+        M = run_pair(res['i'], rng, res, log)
+        for v in M.viol:
+            v['desc'] = {'trace': M.trace[:v['at']]}
+            res['viol'].append(v)
+        core.bump(res['stats'], 'runs')
+        res['digest'] = log.digest()
+        return
     lo, hi = opts.get('length', [40, 40])
     length = rng.randint(lo, hi)
     log = core.EventLog()
@@ -69,5 +132,11 @@ def extra_coverage(results, stats, opts):
     ops = {k[3:]: v for k, v in stats.items() if k.startswith('op.')}
     exc = {k[4:]: v for k, v in stats.items() if k.startswith('exc.')}
     bigrams = set()
-    return {'operations_executed': ops, 'operations_raised': exc, 'distinct_operation_kinds': len(ops),
-            'history_steps': stats.get('steps', 0)}
+    out = {'operations_executed': ops, 'operations_raised': exc, 'distinct_operation_kinds': len(ops),
+           'history_steps': stats.get('steps', 0)}
+    if opts.get('pairs'):
+        n = len(pair_space())
+        out['exhaustive_sub_space'] = ('all %d ordered pairs (op1, op2) of operation kinds on each of %d representative heap classes were '
+                                       'enumerated: %d enumerated, %d with both operations applicable' % (
+                                           n // len(BASE_CLASSES), len(BASE_CLASSES), stats.get('pairs_enumerated', 0), stats.get('pairs_both_applicable', 0)))
+    return out
